@@ -135,6 +135,52 @@ def realise_hits(polygons, chosen):
     return out
 
 
+class SymClip:
+    """A clip geometry known only through what it intersects (the hit pattern of the STRtree contract) and
+    whether it covers the whole dataset (`covers_all`, a Bool the harness ties to the hits: covering the
+    bounding box of the dataset implies intersecting every cell).  Predicates the code under test may ask of it
+    directly - covers / contains (of the dataset's box), intersects / disjoint (of one cell polygon) - answer from
+    those; anything else is reported as not modelled."""
+    geom_type = 'Polygon'
+    is_empty = False
+
+    def __init__(self, polygons, hits, covers_all):
+        self.polygons, self.hits, self.covers_all = polygons, hits, covers_all
+
+    def _cell(self, other):
+        for n, p in enumerate(self.polygons):
+            if p is other and p is not None:
+                return n
+        return None
+
+    def covers(self, other):
+        n = self._cell(other)
+        if n is not None:
+            raise HarnessError('SymClip.covers(cell) is not modelled')
+        return bool(self.covers_all)
+
+    contains = covers
+    contains_properly = covers
+
+    def intersects(self, other):
+        n = self._cell(other)
+        if n is None:
+            raise HarnessError('SymClip.intersects of something that is not a cell polygon is not modelled')
+        return bool(self.hits[n])
+
+    def disjoint(self, other):
+        return not self.intersects(other)
+
+    def __getattr__(self, name):
+        raise HarnessError(f'SymClip.{name} is not modelled')
+
+
+def covering_geometry(polygons):
+    """A real geometry that covers the bounding box of every polygon (with room to spare)."""
+    bs = numpy.array([p.bounds for p in polygons if p is not None])
+    return shapely.box(bs[:, 0].min() - 1.0, bs[:, 1].min() - 1.0, bs[:, 2].max() + 1.0, bs[:, 3].max() + 1.0)
+
+
 class SymPoint:
     """A query point with symbolic coordinates (stands in for shapely.Point)."""
     geom_type = 'Point'
@@ -230,6 +276,34 @@ class PointTree:
             else:
                 hits = [hits[j] for j in perms[int(sel) % len(perms)]]
         return numpy.array(hits, dtype=numpy.intp)
+
+
+def point_predicate_patches():
+    """Patch triples that make the binary predicates of a *concrete* shapely geometry accept a SymPoint
+    (`polygon.intersects(point)` written directly in the code under test rather than through the STRtree):
+    same half-plane contract as PointTree, one fork per call."""
+    from shapely.geometry.base import BaseGeometry
+    tree = PointTree([])
+
+    def make(name, orig):
+        def method(self, other, *a, **k):
+            if not isinstance(other, SymPoint):
+                return orig(self, other, *a, **k)
+            closed = convex_contains(self, other.x, other.y)
+            if name in ('intersects', 'covers'):
+                cond = closed
+            elif name in ('contains', 'contains_properly'):
+                cond = tree._interior(self, other)
+            elif name == 'touches':
+                cond = z3.And(closed, z3.Not(tree._interior(self, other)))
+            elif name == 'disjoint':
+                cond = z3.Not(closed)
+            else:
+                raise HarnessError(f'predicate {name} on a symbolic point is not modelled')
+            return bool(ctx().decide(cond))
+        return method
+    names = ('intersects', 'covers', 'contains', 'contains_properly', 'touches', 'disjoint')
+    return [(BaseGeometry, n, make(n, getattr(BaseGeometry, n))) for n in names]
 
 
 class _Exterior:
